@@ -99,7 +99,34 @@ func describe(w world.World, b *sourcebundle.Bundle, root string) (map[string]st
 				out["regpath:"+s.String()+"@"+v.V] = rel(b.LocalPathForRegistrySource(s, pv))
 				out["finalpath:"+s.String()+"@"+v.V] = rel(b.LocalPathForFinalRegistrySource(s.Versioned(pv)))
 			}
+			// other spellings of the same precedence (build metadata dropped or changed): whatever the
+			// answer is, it is the same every time
+			for _, alt := range []string{strings.SplitN(v.V, "+", 2)[0], strings.SplitN(v.V, "+", 2)[0] + "+other"} {
+				av, perr := versions.ParseVersion(alt)
+				if perr != nil || alt == v.V {
+					continue
+				}
+				first := rel(b.LocalPathForRegistrySource(rs, av))
+				for i := 0; i < 5; i++ {
+					if again := rel(b.LocalPathForRegistrySource(rs, av)); again != first {
+						return nil, fmt.Errorf("LocalPathForRegistrySource(%s, %s) answers %q and then %q on the same bundle", rs, alt, first, again)
+					}
+				}
+				out["regpath-alt:"+rs.String()+"@"+alt] = first
+			}
 		}
+	}
+	// looking things up does not change what the bundle lists
+	var pkAfter, rpAfter []string
+	for _, p := range b.RemotePackages() {
+		pkAfter = append(pkAfter, p.String())
+	}
+	for _, p := range b.RegistryPackages() {
+		rpAfter = append(rpAfter, p.String())
+	}
+	if strings.Join(pkAfter, ",") != out["remote-packages"] || strings.Join(rpAfter, ",") != out["registry-packages"] {
+		return nil, fmt.Errorf("after lookups (some for things the bundle does not have) the bundle lists remote packages [%s] and registry packages [%s]; before: [%s] and [%s]",
+			strings.Join(pkAfter, ","), strings.Join(rpAfter, ","), out["remote-packages"], out["registry-packages"])
 	}
 	// reverse lookups on sampled paths
 	ents, _ := os.ReadDir(root)
@@ -278,7 +305,7 @@ func checkSurvive(w world.World, viaLink, relExtract, dotExtract bool) error {
 
 func TestPropSurvive(t *testing.T) {
 	ev.Check(t, subSurvive, func(t *rapid.T) Case {
-		w := world.Gen(t, world.Config{MaxRemotes: 4, MaxRegistry: 3, NFinders: nFinders, Clones: true, Meta: true, RichTrees: true, OddSubPaths: true})
+		w := world.Gen(t, world.Config{MaxRemotes: 4, MaxRegistry: 3, NFinders: nFinders, Clones: true, Meta: true, RichTrees: true, OddSubPaths: true, Twins: true})
 		return Case{World: w, ViaLink: rapid.IntRange(0, 3).Draw(t, "vialink") == 0, RelExtract: rapid.IntRange(0, 3).Draw(t, "relextract") == 0, DotExtract: rapid.Bool().Draw(t, "dotextract")}
 	})
 }
